@@ -88,6 +88,31 @@ def eval_graph(c, sub):
                                            {'graph so far': ['add_interaction(%r, %r, t=%r)' % (nodes[a], nodes[b], T[tt]) for (a, b, tt) in chosen[:step + 1]],
                                             'failed': bad}))
                     break
+    if 2 <= len(sub) and len(set(t for (_, _, t) in P)) >= 1:
+        lo_, hi_ = T[0], T[-1]
+        try:
+            H.clear()
+            Pm = set()
+            for (i, j, t) in sorted(chosen, key=lambda a: (-a[2], a[0], a[1])):
+                tm = lo_ + hi_ - T[t]
+                H.add_interaction(nodes[i], nodes[j], tm)
+                Pm.add((nodes[i], nodes[j], tm))
+                if not directed:
+                    Pm.add((nodes[j], nodes[i], tm))
+            mids = sorted(set(x[2] for x in Pm))
+            for u in list(H.nodes()):
+                cnt['queries'] += 1
+                bad = po.check_dag(Pm, directed, mids, u, None, None, None, al.temporal_dag(H, u))
+                if not bad:
+                    bad = po.check_dag(Pm, directed, mids, u, None, mids[0], mids[-1], al.temporal_dag(H, u, None, mids[0], mids[-1]))
+                if bad:
+                    viols.append(Violation(PROP, 'incremental', {'kind': 'dag-after-clear-and-refill-differs', 'conditions': bad, 'cls': c['cls']},
+                                           case(['second-life', repr(u)]),
+                                           {'first life': graphs.describe(c, sub), 'then': 'clear() and the same interactions at mirrored instants', 'failed': bad}))
+                    break
+        except Exception as ex:
+            viols.append(Violation(PROP, 'incremental', {'kind': 'second-life-raises', 'exc': type(ex).__name__, 'cls': c['cls']}, case(['second-life']),
+                                   {'first life': graphs.describe(c, sub), 'raised': repr(ex)[:200]}))
     if len(ids) >= 2 and len(sub) >= 2:
         cnt['nontrivial_graphs'] += 1
     return viols[:6], cnt
